@@ -14,5 +14,7 @@ CONSTANTS
   DevRehashDropsBoundary = FALSE
   DevRebuildDropsLast = FALSE
   DevCsumClearsLeaf = FALSE
+  DevSbCsumRefuses = TRUE
+  DevInodeUninitWipes = FALSE
 POSTCONDITION TraceAccepted
 CHECK_DEADLOCK FALSE
